@@ -179,6 +179,18 @@ fn one<X: Sx, Y: Sx>(ctx: &Ctx, idx: u64, l: usize, m: usize, all_flips: bool) {
             sign_with("extended-before-challenge", format!("{k}{nm}"), &c);
         }
     }
+    // every scalar of the commitment proof re-encoded as value + r
+    {
+        let mut at = 48;
+        while at + 32 <= cwp.len() {
+            if let Some(a) = crate::c04::alias_plus_r(&cwp[at..at + 32]) {
+                let mut c = cwp.clone();
+                c[at..at + 32].copy_from_slice(&a);
+                sign_with("scalar-plus-r", format!("{}", (at - 48) / 32), &c);
+            }
+            at += 32;
+        }
+    }
     // a non-canonical word inserted at every 32-byte boundary after the commitment point; stray octets
     for fill in [[0xffu8; 32], crate::c04::R_BE] {
         let mut at = 48;
